@@ -105,6 +105,7 @@ type Stats struct {
 	NodeMillis   int64            `json:"node_ms"`
 	TotalMillis  int64            `json:"total_ms"`
 	OutBytes     int64            `json:"out_bytes"`
+	API          map[string]int   `json:"api_history_queries,omitempty"`
 	Balances     map[string]int64 `json:"-"`
 }
 
@@ -235,7 +236,17 @@ func run(scenario string, seed int64, ident, out, work string, dumpEvery int, du
 	if err := os.MkdirAll(filepath.Dir(out), 0777); err != nil {
 		return nil, err
 	}
-	size, err := emit(out, ident, sc, blocks, obs, format)
+	// the history queries of the real API layer on the final database (only when the whole chain was applied)
+	var apiCases, apiStatus []string
+	if st.FailedAt == 0 {
+		var apiStats map[string]int
+		apiCases, apiStatus, apiStats, err = r.apiCases(n, seed)
+		if err != nil {
+			return nil, err
+		}
+		st.API = apiStats
+	}
+	size, err := emit(out, ident, sc, blocks, obs, format, apiCases, apiStatus)
 	if err != nil {
 		return nil, err
 	}
